@@ -12,3 +12,5 @@ TRUSTED_BASE = ["harness/detsched.py, harness/engine_corr.py, harness/planlevel.
 def run(ctx):
     engine_corr.campaign(ctx, {"C06"})
     planlevel.plan_campaign(ctx, {"C06"})
+    import prune_corr
+    prune_corr.run_prune(ctx)       # dependencies routed through literals survive pruning (Cache/Prune.v)
